@@ -40,16 +40,34 @@ theorem delivery_only_if (c : Cfg) (s : St) (ops : List Op) :
   exact runTrace_ok (deliveryObs c) (fun _ _ => True) (fun _ => True) c
     (fun g s op _ _ => ⟨delivery_op c g s op, trivial⟩) ops () s trivial (fun _ _ => trivial)
 
-/-- **recovery_ack_recipients** (second sentence, first half).  In every trace of the model, Recovery and
-    Acknowledgement notifications — forced or not — go only to users who were sent a Problem for the
-    current incident (since the last Recovery the notification object sent or discarded by its type filter;
-    a Recovery merely withheld by the closed notification period does not end the incident), or who do not
-    subscribe to Problem. -/
-theorem recovery_ack_recipients (c : Cfg) (ops : List Op) :
+/- **recovery_ack_recipients** (second sentence, first half) — the full statement, which the unchanged code (hence the
+   model) does NOT satisfy (F-C03b, `recovery_ack_recipients_counterexample` below):
+
+     theorem recovery_ack_recipients (c : Cfg) (ops : List Op) : recipientsTrace (traceOf c init ops) = none
+
+   In every trace, Recovery and Acknowledgement notifications — forced or not — go only to users who were sent a
+   Problem for the current incident, or who do not subscribe to Problem.  The incident ends when the notification
+   object sends a Recovery or discards it by its type filter, and when the checkable requests a Recovery that
+   `Checkable::SendNotifications` drops because notifications are switched off (checkable-notification.cpp:43-49); a
+   Recovery merely withheld by the closed notification period does not end it. -/
+
+/-- **recovery_ack_recipients_partial**: the statement above for every trace in which no Recovery request is dropped by
+    the enable flags (`recoveryDropped`: an unforced `send recovery` while notifications are disabled globally or for
+    the checkable).  That is the exact gap: see the counterexample. -/
+theorem recovery_ack_recipients_partial (c : Cfg) (ops : List Op)
+    (h : ∀ o ∈ traceOf c init ops, recoveryDropped o = false) :
     recipientsTrace (traceOf c init ops) = none := by
   unfold recipientsTrace
-  exact runTrace_ok recipientsObs RecInv (fun _ => True) c
-    (fun g s op hi _ => recipients_op c g s op hi) ops [] init (fun x hx => by simp [init] at hx) (fun _ _ => trivial)
+  exact runTrace_ok recipientsObs RecInv (fun o => recoveryDropped o = false) c
+    (fun g s op hi hp => recipients_op c g s op hi hp) ops [] init (fun x hx => by simp [init] at hx) h
+
+/-- Without that hypothesis a weaker statement still holds for all traces: a dropped Recovery request changes nothing
+    and sends nothing (so the only thing that goes wrong is that the users of the finished incident are remembered). -/
+theorem dropped_recovery_request_is_a_noop (c : Cfg) (s : St) (op : Op)
+    (h : recoveryDropped (applyOp c s op).2 = true) :
+    (applyOp c s op).1.npu = s.npu ∧ (applyOp c s op).2.events = [] := by
+  obtain ⟨a, b⟩ := dropped_noop c s op h
+  exact ⟨by rw [a], b⟩
 
 /-! The former witness of F-C03a: a notification object whose type filter lacks Recovery (48 = Problem |
     Acknowledgement), two users subscribed to everything.  Problem to both; Recovery (discarded by the type
@@ -66,6 +84,29 @@ def cxEnv (now : Int) (state : Nat) (u1 : Bool) : Env :=
 def cxOps : List Op :=
   [.send .problem (cxEnv 100 2 true), .send .recovery (cxEnv 200 0 true), .send .problem (cxEnv 300 2 false),
    .send .ack (cxEnv 310 2 true)]
+
+/-- F-C03b, the witness: Problem to users 0 and 1; notifications are switched off for the checkable while it recovers
+    (the Recovery request is dropped, `notified_problem_users` survives); next incident: the WARNING Problem reaches
+    user 0 only (user 1 is disabled at that moment); the Acknowledgement of that incident goes to user 1 as well,
+    who was never told about it. -/
+def cxDropOps : List Op :=
+  [.send .problem (cxEnv 100 2 true), .send .recovery { cxEnv 200 0 true with ckEnabled := false },
+   .send .problem (cxEnv 300 1 false), .send .ack (cxEnv 310 1 true)]
+def cxAll : Cfg := { cxCfg with typeFilter := 511 }
+
+theorem recovery_ack_recipients_counterexample :
+    recipientsTrace (traceOf cxAll init cxDropOps) = some .recoveryAckRecipients ∧
+    (traceOf cxAll init cxDropOps).map (fun o => o.events) =
+      [[⟨.problem, false, true, false, [0, 1]⟩], [], [⟨.problem, false, true, false, [0]⟩], [⟨.ack, false, true, false, [0, 1]⟩]] := by
+  decide
+
+/-- The same stale bookkeeping has a second effect the property (an "only if") does not cover: the next incident's
+    Problem for the *same* state is sent to nobody — `last_notified_state_per_user` survives the dropped request too. -/
+example :
+    (traceOf cxAll init [.send .problem (cxEnv 100 2 true), .send .recovery { cxEnv 200 0 true with ckEnabled := false },
+                         .send .problem (cxEnv 300 2 true)]).map (fun o => o.events) =
+      [[⟨.problem, false, true, false, [0, 1]⟩], [], [⟨.problem, false, true, false, []⟩]] := by
+  decide
 
 /-- Regression for F-C03a (was `recovery_ack_recipients_counterexample` before the repair). -/
 example :
@@ -153,13 +194,32 @@ theorem reminder_spacing (c : Cfg) (ops : List Op) :
     (fun g s op hi _ => reminder_op c g s op hi) ops {} init
     (fun t1 l hl => by simp at hl) (fun _ _ => trivial)
 
-/-- **model_trace_meets_spec** (the whole property).  For every configuration of the notification object and
-    every finite sequence of notification requests and timer runs under arbitrary environments, the
-    model's trace satisfies the whole executable specification. -/
-theorem model_trace_meets_spec (c : Cfg) (ops : List Op) :
+/- **model_trace_meets_spec** (the whole property) — full statement, false of the unchanged code because of F-C03b:
+
+     theorem model_trace_meets_spec (c : Cfg) (ops : List Op) : specTrace c (traceOf c init ops) = none -/
+
+/-- **model_trace_meets_spec_partial**.  For every configuration of the notification object and every finite sequence of
+    notification requests and timer runs under arbitrary environments in which no Recovery request is dropped by the
+    enable flags, the model's trace satisfies the whole executable specification (all clauses of all checkers). -/
+theorem model_trace_meets_spec_partial (c : Cfg) (ops : List Op)
+    (h : ∀ o ∈ traceOf c init ops, recoveryDropped o = false) :
     specTrace c (traceOf c init ops) = none := by
   unfold specTrace
-  rw [delivery_only_if, recovery_ack_recipients, no_duplicate_problem, reminder_spacing, heldTrace_ok]
+  rw [delivery_only_if, recovery_ack_recipients_partial c ops h, no_duplicate_problem, reminder_spacing, heldTrace_ok]
+
+/-- … and `recoveryAckRecipients` is the only clause that can fail without the hypothesis: every other checker accepts
+    every trace of the model. -/
+theorem model_trace_other_clauses (c : Cfg) (ops : List Op) :
+    deliveryTrace c (traceOf c init ops) = none ∧ noDupTrace (traceOf c init ops) = none ∧
+    reminderTrace c (traceOf c init ops) = none ∧ heldTrace (traceOf c init ops) = none :=
+  ⟨delivery_only_if c init ops, no_duplicate_problem c ops, reminder_spacing c ops, heldTrace_ok c ops init⟩
+
+theorem model_trace_meets_spec_counterexample :
+    specTrace cxAll (traceOf cxAll init cxDropOps) = some .recoveryAckRecipients := by
+  decide
+
+/-- The hypothesis is satisfiable on a non-trivial trace (the former witness of F-C03a: four requests, seven deliveries). -/
+example : ∀ o ∈ traceOf cxCfg init cxOps, recoveryDropped o = false := by decide
 
 /-! ## Non-vacuity -/
 
@@ -186,39 +246,39 @@ example :
   decide
 
 /-- The specification rejects a delivery while the notification period is closed … -/
-example : specTrace exCfg [⟨.send, { exEnv 120 100 2 with periodOpen := false }, [⟨.problem, false, true, false, [0]⟩], false⟩] =
+example : specTrace exCfg [⟨.send, { exEnv 120 100 2 with periodOpen := false }, [⟨.problem, false, true, false, [0]⟩], false, none⟩] =
     some .notifPeriod := by decide
 
 /-- … a delivery to a disabled user, even when forced … -/
 example : specTrace exCfg [⟨.send, { exEnv 120 100 2 with force := true, users := [cxUser 0 false] },
-    [⟨.problem, false, true, true, [0]⟩], false⟩] = some .userFilters := by decide
+    [⟨.problem, false, true, true, [0]⟩], false, none⟩] = some .userFilters := by decide
 
 /-- … a delivery that claims to be forced although force_next_notification was not set … -/
-example : specTrace exCfg [⟨.send, { exEnv 120 100 2 with periodOpen := false }, [⟨.problem, false, true, true, [0]⟩], false⟩] =
+example : specTrace exCfg [⟨.send, { exEnv 120 100 2 with periodOpen := false }, [⟨.problem, false, true, true, [0]⟩], false, none⟩] =
     some .forceClaim := by decide
 
 /-- … a Recovery to a subscriber who was not sent the Problem … -/
-example : specTrace exCfg [⟨.send, exEnv 120 100 2, [⟨.problem, false, true, false, [0]⟩], false⟩,
-    ⟨.send, exEnv 200 200 0, [⟨.recovery, false, true, false, [0, 1]⟩], false⟩] = some .recoveryAckRecipients := by decide
+example : specTrace exCfg [⟨.send, exEnv 120 100 2, [⟨.problem, false, true, false, [0]⟩], false, none⟩,
+    ⟨.send, exEnv 200 200 0, [⟨.recovery, false, true, false, [0, 1]⟩], false, none⟩] = some .recoveryAckRecipients := by decide
 
 /-- … a second non-reminder Problem for the same state … -/
-example : specTrace exCfg [⟨.send, exEnv 120 100 2, [⟨.problem, false, true, false, [0]⟩], false⟩,
-    ⟨.send, exEnv 130 100 2, [⟨.problem, false, true, false, [0]⟩], false⟩] = some .duplicateProblem := by decide
+example : specTrace exCfg [⟨.send, exEnv 120 100 2, [⟨.problem, false, true, false, [0]⟩], false, none⟩,
+    ⟨.send, exEnv 130 100 2, [⟨.problem, false, true, false, [0]⟩], false, none⟩] = some .duplicateProblem := by decide
 
 /-- … a reminder while acknowledged, a reminder 59 s after the Problem … -/
-example : specTrace exCfg [⟨.tick, { exEnv 120 100 2 with acked := true }, [⟨.problem, true, true, false, [0]⟩], false⟩] =
+example : specTrace exCfg [⟨.tick, { exEnv 120 100 2 with acked := true }, [⟨.problem, true, true, false, [0]⟩], false, none⟩] =
     some .reminderCond := by decide
-example : specTrace exCfg [⟨.send, exEnv 120 100 2, [⟨.problem, false, true, false, [0]⟩], false⟩,
-    ⟨.tick, exEnv 179 100 2, [⟨.problem, true, true, false, [0]⟩], false⟩] = some .reminderSpacing := by decide
+example : specTrace exCfg [⟨.send, exEnv 120 100 2, [⟨.problem, false, true, false, [0]⟩], false, none⟩,
+    ⟨.tick, exEnv 179 100 2, [⟨.problem, true, true, false, [0]⟩], false, none⟩] = some .reminderSpacing := by decide
 
 /-- … a reminder while the checkable or the notification object still holds the initial Problem back … -/
-example : specTrace exCfg [⟨.tick, { exEnv 120 100 2 with ckProblemPending := true }, [⟨.problem, true, true, false, [0]⟩], false⟩] =
+example : specTrace exCfg [⟨.tick, { exEnv 120 100 2 with ckProblemPending := true }, [⟨.problem, true, true, false, [0]⟩], false, none⟩] =
     some .reminderBeforeHeld := by decide
-example : specTrace exCfg [⟨.tick, exEnv 120 100 2, [⟨.problem, true, true, false, [0]⟩], true⟩] =
+example : specTrace exCfg [⟨.tick, exEnv 120 100 2, [⟨.problem, true, true, false, [0]⟩], true, none⟩] =
     some .reminderBeforeHeld := by decide
 
 /-- … and, with interval 0, any reminder after the Problem. -/
-example : specTrace { exCfg with interval := 0 } [⟨.send, exEnv 120 100 2, [⟨.problem, false, true, false, [0]⟩], false⟩,
-    ⟨.tick, exEnv 500 100 2, [⟨.problem, true, true, false, [0]⟩], false⟩] = some .reminderInterval0 := by decide
+example : specTrace { exCfg with interval := 0 } [⟨.send, exEnv 120 100 2, [⟨.problem, false, true, false, [0]⟩], false, none⟩,
+    ⟨.tick, exEnv 500 100 2, [⟨.problem, true, true, false, [0]⟩], false, none⟩] = some .reminderInterval0 := by decide
 
 end Icinga.C03
